@@ -34,6 +34,9 @@
  *   SHMFAIL <n>        the next n shm_open(O_CREAT) calls fail with ENOSPC (allocate_shmem_buffer)  -> "SHMFAIL"
  *   PSTATE             ring of the current thread -> "P nr_buf curr losts done [flag size]..."
  *   BASE               address of f0 -> "BASE <addr>";   TID -> "TID <tid of the current thread>"
+ *   EXEC               prints "EXEC", flushes, then execs this program again (same pid/tid, same environment:
+ *                      libmcount starts a new session in the new image); the driver must wait for the line
+ *                      before it sends anything else
  *   VALX <name> <v>    (C17) unsigned 64-bit knobs: statm_on statm0 statm1 statm2 (pages, faked /proc/self/statm),
  *                      pmu_on cycle0 cycle1 cache0 cache1 branch0 branch1 (faked perf_event_open group reads),
  *                      var8 var16 var32 (watched globals verif_watched_u8 / _u16 / _u32)
@@ -803,6 +806,13 @@ int main(void)
 			dump_records(tid);
 			cur = 0;
 			continue;
+		}
+		if (!strncmp(line, "EXEC", 4)) {
+			char *const av[] = { (char *)"mc_harness", NULL };
+			printf("EXEC\n");
+			fflush(stdout);
+			execv("/proc/self/exe", av);
+			_exit(97);
 		}
 		if (!strncmp(line, "FORK", 4)) {
 			pid_t pid;
